@@ -110,7 +110,7 @@ fn case(cfg: &Config, idx: u64, r: &mut Rng, st: &mut Stats) {
 pub fn run(cfg: &Config) -> i32 {
     let started = Instant::now();
     let budget = Duration::from_secs_f64(cfg.pick(50.0, 540.0) * cfg.scale);
-    let stats = parallel(cfg, "main", cfg.scaled(cfg.pick(2500, 2_000_000)), budget, |idx, r, st| case(cfg, idx, r, st));
+    let stats = parallel(cfg, "main", cfg.scaled(cfg.pick(5000, 2_000_000)), budget, |idx, r, st| case(cfg, idx, r, st));
     finish(
         cfg,
         started,
